@@ -3,4 +3,4 @@ Require Extraction.
 Require Import ExtrOcamlBasic.
 Extraction Language OCaml.
 Extraction "C01_model.ml" wire_anchor run iv_run spec_run iv_spec_step spec_observe empty_vec pred_of observe
-  xrun st_run iv_xrun xspec_run st_spec_run iv_xspec_run.
+  xrun st_run iv_xrun xspec_run st_spec_run iv_xspec_run xrun_fast iv_xrun_fast.
